@@ -69,7 +69,13 @@ func expandToken(tx plugintypes.TransactionState, token macroToken) string {
 	if token.variable == variables.Unknown {
 		return token.text
 	}
-	switch col := tx.Collection(token.variable).(type) {
+	c := tx.Collection(token.variable)
+	if c == nil {
+		// some variables have no backing collection (e.g. JSON); expand to the original text
+		tx.DebugLogger().Warn().Str("variable", token.variable.Name()).Str("key", token.key).Msg("collection not available, returning the original text")
+		return token.text
+	}
+	switch col := c.(type) {
 	case collection.Keyed:
 		if c := col.Get(token.key); len(c) > 0 {
 			return c[0]
